@@ -1,5 +1,5 @@
 #!/bin/bash
-# usage: verify_benign.sh <patch.diff> <name>
+# usage: verify_benign.sh <patch.diff> <name> [<demo dir of the twin seeded change>]
 # Confirms a benign rewrite in a scratch worktree: the patch applies and builds, go vet output is
 # unchanged, and the pinned suite still passes (all stable_pass tests).
 set -u
@@ -17,4 +17,12 @@ echo "patch_applies=1" >> $OUT
 if go build ./... >> $OUT.build 2>&1; then echo "builds=1" >> $OUT; else echo "builds=0" >> $OUT; cat $OUT; exit 1; fi
 if /verif/scripts/baseline.sh $WT >> $OUT.suite 2>&1; then echo "suite_passes_with_change=1" >> $OUT; else echo "suite_passes_with_change=0" >> $OUT; fi
 tail -1 $OUT.suite >> $OUT
+if [ -n "${3:-}" ] && [ -d "$3" ]; then
+  # the demonstration of the twin (broken) change must pass with the correct version
+  (cd $3 && find . -type f) | while read f; do mkdir -p $WT/$(dirname $f); cp $3/$f $WT/$f; done
+  DEMOPKGS=$(cd $3 && find . -name '*_test.go' -exec dirname {} \; | sort -u)
+  twin_ok=1
+  for p in $DEMOPKGS; do go test -vet=off -count=1 -run 'TestSeedDemo' $p/ >> $OUT.twin 2>&1 || twin_ok=0; done
+  echo "twin_demo_passes=$twin_ok" >> $OUT
+fi
 cat $OUT
